@@ -185,5 +185,8 @@ def run(ctx):
             kw["max_dist"] = rng.choice([0.5, 1.0, 2.0, 4.0, 9.0])
         elif x < 0.3 and dtwmon.valid_ub_domain(kw, r, c):
             kw["use_pruning"] = True
+        if rng.random() < 0.1:
+            kw = gen.numpy_typed(kw, rng, np)
+            ctx.count("settings_given_as_numpy_scalars")
         ctx.count("random_cases")
         one(ctx, dtw, dtw_cc, np, s1, s2, kw, psi_neg=rng.random() < 0.5, keep=rng.random() < 0.4, nd=nd)
